@@ -31,18 +31,18 @@ def genericChecks (cx : Ctx) (prev : RObs) (line : String) (r : RObs) : List Str
   let g2 := if r.dbl = prev.dbl then [] else ["G2:double-drop"]
   let g3 := if cx.elem = .cell ∧ r.live < (st.l : Int) then ["G3:dead-cell-reachable"] else []
   let g4 :=
-    if cx.elem ≠ .u32 ∧ r.status = "ok" ∧ !hasFault ∧ !hasBang ∧ !leaks ∧ !prev.st.big ∧ !st.big then
+    if cx.elem.ledgered ∧ r.status = "ok" ∧ !hasFault ∧ !hasBang ∧ !leaks ∧ !prev.st.big ∧ !st.big then
       (if r.live - (st.l : Int) = prev.live - (prev.st.l : Int) then [] else ["G4:element-left-undropped-or-over-dropped"])
     else []
   let bumping := ["rows_mut", "cells_mut", "col_mut", "iter_mut", "row_pair"]
   let g5 :=
-    if st.big ∨ prev.st.big ∨ bumping.contains op ∨ cx.elem = .zst then []
+    if st.big ∨ prev.st.big ∨ bumping.contains op ∨ cx.elem.isZst then []
     else
       let allowed := prev.st.data ++ numbersIn line ++ [0]
       if st.data.all fun v => allowed.contains v then [] else ["G5:cell-of-unknown-origin"]
   -- G6 (C07/C12): an element handed out by a drain is no longer in the array, whatever happens to the drain afterwards
   let g6 :=
-    if ["remove_row", "remove_col", "pop_row", "pop_col"].contains op ∧ cx.elem ≠ .zst ∧ !st.big ∧ !prev.st.big
+    if ["remove_row", "remove_col", "pop_row", "pop_col"].contains op ∧ !cx.elem.isZst ∧ !st.big ∧ !prev.st.big
         ∧ prev.st.data.eraseDups.length = prev.st.data.length then
       let word := if op.startsWith "pop" then ws.getD 2 "-" else ws.getD 3 "-"
       let steps := if word = "-" then [] else word.splitOn ","
@@ -74,7 +74,7 @@ def oracle (cx : Ctx) (prev : RObs) (line : String) (robs : Option RObs) : Strin
     if r.status = "bad-op" ∨ r.status = "unsupported" then "?"
     else
       let specific : List String :=
-        match specStep cx line r <|> specRootStep cx line with
+        match (if prev.st.big then specHuge cx line else (specStep cx line r <|> specRootStep cx line)) with
         | some e => checkSExp e r
         | none => (specSerde cx line r parseJson).getD []
       match genericChecks cx prev line r ++ specific ++ specEq cx line r with
@@ -87,7 +87,7 @@ def oracleEnd (cx : Ctx) (prev : RObs) (robs : Option RObs) : String :=
   | some r =>
     let f1 := if r.st.c = 0 ∧ r.st.r = 0 ∧ r.st.l = 0 then [] else ["end:state"]
     let f2 := if r.dbl = prev.dbl then [] else ["G2:double-drop"]
-    let f3 := if cx.elem ≠ .u32 ∧ !prev.st.big ∧ r.live ≠ prev.live - (prev.st.l : Int) then ["G4:final-drop-count"] else []
+    let f3 := if cx.elem.ledgered ∧ !prev.st.big ∧ r.live ≠ prev.live - (prev.st.l : Int) then ["G4:final-drop-count"] else []
     match f1 ++ f2 ++ f3 with
     | [] => "ok"
     | fs => "FAIL " ++ ",".intercalate fs
